@@ -137,9 +137,11 @@ successfully, or not to be run by configuration. -/
 def safe (s : State) (c : Ctx) : Bool :=
   covered c (pendingNF s.items ++ succeeded s.log ++ s.skipped)
 
-/-- The repaired `taskHandleHookRun`: combining stops at a task whose `AllowFailure` differs. -/
+/-- The repaired `taskHandleHookRun`: combining stops at a task whose `AllowFailure` differs, and
+at a Synchronization that is not to be executed (the second condition is C06's repair; both are in
+the one `stopCombineFn` closure of the code). -/
 def repaired (version : Nat → Nat) (backoff : Nat → Nat → Nat) : Cfg :=
-  { stopOf := stopOnAllowFailureChange, version, backoff }
+  { stopOf := stopOnAllowFailureChangeOrSkippedSync, version, backoff }
 
 /-- The code before the repair: `combineBindingContextForHook(…, t, nil)`. -/
 def unrepaired (version : Nat → Nat) (backoff : Nat → Nat → Nat) : Cfg :=
